@@ -159,7 +159,7 @@ pub fn run(rep: &mut Report) {
     });
 
     // (b) single edits of valid patterns
-    let n = if thorough { 200_000 } else { 8_000 };
+    let n = if thorough { 600_000 } else { 60_000 };
     run_cases(rep, "edit", n, |rep, rng, idx| {
         let o = GenOpts { max_depth: 3, allow_default_date: true, allow_profile_groups: true, spec_prob: (1, 2), mdc_keys: vec!["user".into()] };
         let mut hole = 1;
@@ -189,7 +189,7 @@ pub fn run(rep: &mut Report) {
     });
 
     // (c) V + M
-    let n = if thorough { 40_000 } else { 2_000 };
+    let n = if thorough { 200_000 } else { 20_000 };
     run_cases(rep, "tail", n, |rep, rng, idx| {
         let o = GenOpts { max_depth: 2, allow_default_date: false, allow_profile_groups: false, spec_prob: (1, 3), mdc_keys: vec![] };
         let mut hole = 0;
@@ -236,7 +236,7 @@ pub fn run(rep: &mut Report) {
     });
 
     // (d) random unicode
-    let n = if thorough { 200_000 } else { 8_000 };
+    let n = if thorough { 600_000 } else { 60_000 };
     run_cases(rep, "unicode", n, |rep, rng, _| {
         let pool: Vec<char> = "{}()\\:.<>0123456789mdhXltTn%é€𝄞 \u{0}\u{7f}\u{301}\u{feff}\u{10ffff}Yz-+".chars().collect();
         let len = rng.usize_below(24);
